@@ -47,7 +47,14 @@ def gen_c11_mutation(rng, cur, label):
         new = rng.choice(['napp', 'zapp', 'n'])
         if cur.get_app_sig(new) is not None or new == label:
             return None
-        return {'t': 'RenameAppLabel', 'old': label, 'new': new, 'legacy': rng.choice([None, label]), 'models': None}
+        names = None
+        app = cur.get_app_sig(label)
+        if app is not None and rng.random() < 0.5:
+            # the split-an-app form: only the named models move to the new label
+            all_names = [m.model_name for m in app.model_sigs]
+            if all_names:
+                names = rng.sample(all_names, rng.randint(1, len(all_names)))
+        return {'t': 'RenameAppLabel', 'old': label, 'new': new, 'legacy': rng.choice([None, label]), 'models': names}
     if k == 'DeleteApplication':
         return {'t': 'DeleteApplication'}
     return sigs.gen_mutation(rng, cur, label, [k])
@@ -129,6 +136,9 @@ def family():
                                      'db_column': None, 'db_table': None}],
         [rm('Category', 'Section'), {'t': 'RenameAppLabel', 'old': 'vapp', 'new': 'lib', 'legacy': None, 'models': None}],
         [{'t': 'DeleteField', 'model': 'Category', 'field': 'twin'}, rm('Category', 'Section')],
+        [{'t': 'RenameAppLabel', 'old': 'vapp', 'new': 'lib', 'legacy': None, 'models': ['Category']}],
+        [{'t': 'RenameAppLabel', 'old': 'vapp', 'new': 'lib', 'legacy': None, 'models': ['Category', 'Item']}],
+        [{'t': 'RenameAppLabel', 'old': 'vapp', 'new': 'lib', 'legacy': 'vapp', 'models': ['Item']}],
     ]
     return [(spec, q) for q in seqs]
 
